@@ -100,7 +100,8 @@ func ParseCFF2(src []byte) (*CFF2, error) {
 		out.fonts[i].defaultVSIndex = pd.vsindex
 		// if required, parse the local subroutines
 		if pd.subrsOffset != 0 {
-			out.fonts[i].localSubrs, err = parseIndex2(src, int(pd.subrsOffset))
+			// the offset is relative to the start of the private dict
+			out.fonts[i].localSubrs, err = parseIndex2(src, int(fd.privateDictOffset)+int(pd.subrsOffset))
 			if err != nil {
 				return nil, err
 			}
